@@ -72,6 +72,7 @@ def run(ctx: Ctx):
     # lexer-style loops over a greedy case (clauses that are prefixes of one another, action-only clauses): final states that can go on matching
     from . import c08
     c01.add_shapes(ctx, rng, pool, [c08.case_program(rng, True) for _ in range(8 if quick else 100)] + c08.prefix_loop_shapes(rng, 10 if quick else 120), "greedy_loop_shapes_accepted")
+    c01.add_shapes(ctx, rng, pool, c01.loop_tail_shapes(rng, 8 if quick else 80, yields=True, family="yield-chain"), "yield_chain_shapes_accepted", levels=("-O0", "-O3", "-O3"))
     c01.add_shapes(ctx, rng, pool, c08.open_token_shapes(rng, 10 if quick else 120), "open_token_shapes_accepted", levels=("-O0", "-O2", "-O3", "-O3"))
     c01.run_pool(ctx, rng, quick, pool, "c10", pointers=True, nwalk=35 if quick else 80)
 
